@@ -185,6 +185,7 @@ def nt_c07(prog, out, monline=""):
 PROPS["C07"] = dict(
     title="Operator chains are bracketed by the documented priority table",
     projection="stacks_verdict",
+    extra_files=["C07b"],
     monitor="C07",
     domain="accepted",
     rule="corpus + generated programs + the chain stream (functions whose lets are operator chains over extension "
@@ -194,8 +195,8 @@ PROPS["C07"] = dict(
          "independently computed well-bracketed tree); distinct = distinct program texts",
     nontrivial=nt_c07,
     assumptions=["priority table and MAX level are regenerated from /repo/src/ast.rs on every run (coq/Gen/Priority.v)",
-                 "the theorem is about the folding routine; that the emitted operations follow the folded chain is carried "
-                 "by the correspondence check and the monitor (expression lemma not yet proved)"],
+                 "run_emitted_tree_is_bracket: on accepted runs the emitted operations, read back through their register "
+                 "operands, are the independently computed well-bracketed tree (the model always passes chk_C07)"],
 )
 
 
@@ -564,6 +565,7 @@ def known_C08(prog, impl, monline, mname):
 PENDING["C08"] = dict(
     title="Every register that is read has been written earlier in the same function",
     projection="stacks",
+    extra_files=["C08b"],
     monitors=[("C08q", "accepted_wf"), ("C08i", "accepted_wf")],
     known_class=known_C08,
     domain="accepted_wf",
@@ -584,6 +586,7 @@ def known_C05(prog, impl, monline, mname):
 PENDING["C05"] = dict(
     title="The instruction stack preserves the program's control flow",
     projection="stacks",
+    extra_files=["C05b"],
     monitors=[("C05q", "accepted_wf"), ("C05i", "accepted_wf"), ("C10r", "accepted_wf")],
     known_class=known_C05,
     domain="accepted_wf",
